@@ -1,22 +1,23 @@
 (* PropC13.v — C13: backtracking is invisible.
 
    Proved here (transactional lexer model and combinator interpreter, both
-   compared with the Go code on every run): Snapshot then Rollback restores
-   the read position and the snapshot stack; Snapshot then Commit keeps the
-   position and restores the stack; a Next below the write pointer replays the
-   cached token without touching the underlying lexer; Assert, Not and Ok
-   leave position and snapshot stack exactly as they found them, whatever
-   their argument does.  The full refinement (every combined parser equals the
-   ordered-choice recogniser, [C13_comb_refines_spec_statement]) is open; the
-   check evaluates it on generated parser expressions. *)
-Require Import Calc.Base Calc.Lexer Calc.Comb.
+   compared with the Go code on every run): the interpreter that issues Next,
+   Snapshot, Commit and Rollback in the order the Go closures do, over the
+   replay cache and with Go's nil / non-nil slices, computes on every
+   combinator expression and for every fuel exactly what ordered choice
+   computes on the plain token list — same nodes, same position afterwards,
+   same error, same panics, the snapshot stack as found
+   ([C13_backtracking_is_invisible], CombProofs.v: induction on the fuel and
+   the expression, the four repetition loops by their own inductions).  The
+   lexer under the transactional lexer enters as a token source: a predicate
+   Src with two hypotheses (it delivers the entries of one fixed list in
+   order, and reports the end ever after); they are hypotheses of the theorem,
+   not axioms — that the concrete lexer model behaves so is compared on every
+   run (chk_tlex_spec).  Also: Snapshot/Rollback/Commit restore what they
+   should, a replayed Next does not touch the lexer, Assert, Not and Ok consume
+   nothing. *)
+Require Import Calc.Base Calc.Lexer Calc.Comb Calc.CombProofs.
 Open Scope Z_scope.
-
-Definition C13_comb_refines_spec_statement : Prop :=
-  forall fuel p input t nodes,
-    run_go fuel p (new_tlexer input) = GRes t (nodes, None) ->
-    exists pos, run_spec fuel p (tokens_of input) (-1) = SOk (match nodes with Some l => l | None => [] end) pos /\
-                tl_readp t = pos /\ tl_pointers t = [].
 
 Lemma removelast_app_one {A} (l : list A) (x : A) : removelast (l ++ [x]) = l.
 Proof. apply removelast_last. Qed.
@@ -81,3 +82,55 @@ Print Assumptions C13_not_consumes_nothing.
 Theorem C13_ok_is_neutral : forall k t, run_go (S k) POk t = GRes t (Some [], None).
 Proof. reflexivity. Qed.
 Print Assumptions C13_ok_is_neutral.
+
+(* ---- the refinement ---- *)
+Theorem C13_backtracking_is_invisible :
+  forall (toks : list lexres) (Src : lexer -> nat -> Prop),
+    (forall l k e, Src l k -> nth_error toks k = Some e ->
+       exists l', lexer_next l = NTrue l' /\
+                  {| r_token := l_token l'; r_err := l_err l'; r_from := l_from l'; r_to := l_to l' |} = e /\ Src l' (S k)) ->
+    (forall l, Src l (List.length toks) -> exists l', lexer_next l = NFalse l' /\ Src l' (List.length toks)) ->
+    forall l0, Src l0 0%nat ->
+    forall k p,
+      let t0 := {| tl_stack := []; tl_pointers := []; tl_writep := 0; tl_readp := -1; tl_lexer := l0 |} in
+      sim toks Src t0 (run_go k p t0) (run_spec k p toks (-1)).
+Proof. exact backtracking_is_invisible. Qed.
+Print Assumptions C13_backtracking_is_invisible.
+
+(* from any state in which the cache is a prefix of the token list: the invariant behind it *)
+Theorem C13_go_is_spec_from_any_state :
+  forall (toks : list lexres) (Src : lexer -> nat -> Prop),
+    (forall l k e, Src l k -> nth_error toks k = Some e ->
+       exists l', lexer_next l = NTrue l' /\
+                  {| r_token := l_token l'; r_err := l_err l'; r_from := l_from l'; r_to := l_to l' |} = e /\ Src l' (S k)) ->
+    (forall l, Src l (List.length toks) -> exists l', lexer_next l = NFalse l' /\ Src l' (List.length toks)) ->
+    forall k p t pos, Rt toks Src t pos -> sim toks Src t (run_go k p t) (run_spec k p toks pos).
+Proof. intros toks Src H1 H2. exact (go_is_spec toks Src H1 H2). Qed.
+Print Assumptions C13_go_is_spec_from_any_state.
+
+(* the hypotheses are met by the concrete lexer model on a real input: the
+   successive lexer states of a scan are a token source for the scanned list *)
+Fixpoint lexer_states (n : nat) (l : lexer) : list lexer :=
+  match n with
+  | O => [l]
+  | S k => l :: match lexer_next l with NTrue l' => lexer_states k l' | _ => [] end
+  end.
+
+Example C13_token_source_exists :
+  let input := "f(1, x)" in
+  let toks := tokens_of input in
+  let LS := lexer_states (List.length toks) (new_lexer input) in
+  let Src := fun (l : lexer) (k : nat) => nth_error LS k = Some l in
+  List.length toks = 8%nat /\
+  (forall l k e, Src l k -> nth_error toks k = Some e ->
+     exists l', lexer_next l = NTrue l' /\
+                {| r_token := l_token l'; r_err := l_err l'; r_from := l_from l'; r_to := l_to l' |} = e /\ Src l' (S k)) /\
+  (forall l, Src l (List.length toks) -> exists l', lexer_next l = NFalse l' /\ Src l' (List.length toks)) /\
+  Src (new_lexer input) 0%nat.
+Proof.
+  cbv zeta. split; [vm_compute; reflexivity|]. split; [|split; [|vm_compute; reflexivity]].
+  - intros l k e Hs He.
+    do 8 (destruct k as [|k]; [vm_compute in Hs, He; inversion Hs; inversion He; subst; eexists; split; [vm_compute; reflexivity|split; vm_compute; reflexivity]|]).
+    vm_compute in He. destruct k; discriminate.
+  - intros l Hs. vm_compute in Hs. inversion Hs; subst. eexists. split; vm_compute; reflexivity.
+Qed.
